@@ -11,13 +11,15 @@ NOTE = ("Trusted: Lean 4.33 kernel; axioms propext/Classical.choice/Quot.sound o
 
 CLAIMED = {
  "C16": dict(
-    text="Lean 4 theorems, unbounded in the number of variables and their sizes, about a hand-written executable model of "
-         "index_util / MultinomialDistribution (serial<->multi-index mutually inverse, in range, row-major; constructor "
-         "normalisation), tied to /repo on every run by an exhaustive correspondence check of the index maps and a "
-         "structured one for constructor / marginalize / conditionalize, plus the property oracle on the real code "
-         "(marginal = sum, joint = marginal x conditional, ensemble layout).",
-    design="§4 C16",
-    technique="Lean 4 proof (induction over the length list) + model/implementation correspondence"),
+    text="Lean 4 theorems, unbounded in the number of variables and their sizes, about an executable model of "
+         "index_util / MultinomialDistribution / ProbDist tuple access (serial<->multi-index mutually inverse, in range, row-major; constructor "
+         "normalisation; marginal mass; joint = marginal x conditional for any set of conditioning variables). The two index-map loops, "
+         "their guards and the numeric defaults / tolerances are REGENERATED from /repo's source on every run (ast skeleton matcher -> "
+         "lean/QGen/C16.lean) and proved equal to the model for all inputs; the rest is tied by an exhaustive correspondence check of the index maps "
+         "(hand model and generated definitions) and a structured one for constructor / marginalize / conditionalize / tuple access, plus the "
+         "property oracle on the real code (marginal = sum, joint = marginal x conditional, documented thresholds, ensemble and POVM layouts).",
+    design="§4 C16, §9.2",
+    technique="Lean 4 proof (induction over the length list) + source-to-Lean translator + model/implementation correspondence"),
  "C04": dict(
     text="Equality projections of all four types: membership, orthogonality of the residual, nearest point, idempotence, fixed points "
          "and object-level = variable-level (both parametrisation flags) proved in Lean 4 for all d, m over any ordered field (hence the "
